@@ -290,13 +290,36 @@ impl<'a> GeneratorState<'a> {
     {
         let v = match left {
             ExprType::Absolute(varname, _, _) => self.compiler_state.get_variable(varname),
-            ExprType::AbsoluteX(varname) => self.compiler_state.get_variable(varname),
+            ExprType::AbsoluteX(varname) | ExprType::AbsoluteY(varname) => self.compiler_state.get_variable(varname),
             _ => unreachable!()
         };
+        // The 6502 has no ASL/LSR/ROL/ROR abs,Y : an element indexed by Y goes through the accumulator
+        let through_acc = matches!(left, ExprType::AbsoluteY(_));
         if let ExprType::Immediate(value) = right {
             if self.acc_in_use { self.sasm(PHA)?; }
             for _ in 0..*value {
-                if let Operation::Bls(_) = op {
+                if through_acc {
+                    if let Operation::Bls(_) = op {
+                        self.asm(LDA, left, pos, false)?;
+                        self.asm(ASL, &ExprType::Nothing, pos, false)?;
+                        self.asm(STA, left, pos, false)?;
+                        self.asm(LDA, left, pos, true)?;
+                        self.asm(ROL, &ExprType::Nothing, pos, false)?;
+                        self.asm(STA, left, pos, true)?;
+                    } else {
+                        self.asm(LDA, left, pos, true)?;
+                        if v.signed {
+                            self.asm(CMP, &ExprType::Immediate(128), pos, false)?;
+                            self.asm(ROR, &ExprType::Nothing, pos, false)?;
+                        } else {
+                            self.asm(LSR, &ExprType::Nothing, pos, false)?;
+                        }
+                        self.asm(STA, left, pos, true)?;
+                        self.asm(LDA, left, pos, false)?;
+                        self.asm(ROR, &ExprType::Nothing, pos, false)?;
+                        self.asm(STA, left, pos, false)?;
+                    }
+                } else if let Operation::Bls(_) = op {
                     self.asm(ASL, left, pos, false)?;
                     self.asm(ROL, left, pos, true)?;
                 } else if v.signed {
@@ -311,6 +334,7 @@ impl<'a> GeneratorState<'a> {
             }
             if self.acc_in_use { self.sasm(PLA)?; }
             self.carry_flag_ok = false;
+            if through_acc { self.flags = FlagsState::Unknown; }
             Ok(ExprType::Nothing)
         } else {
             unreachable!();
